@@ -48,6 +48,7 @@
 #include <time.h>
 using namespace stir;
 typedef VoxelsOnCartesianGrid<float> Img;
+typedef DiscretisedDensity<3, float> Den;
 
 // =================================================================== hook recorder
 namespace rec {
@@ -127,10 +128,12 @@ extern "C" void stir_verif_event(const char* site, long a, long b, long c, long 
 
 // =================================================================== run context
 static std::string g_text;                 // lines of the current run (written in one go at the end)
+static std::string g_outs;                 // output lines of the current run (written after the hook events)
 static std::map<std::string, int> g_scale;   // fixed-point exponent per output name, chosen in the reference run
 static FILE* g_out = nullptr;
 static long g_lines = 0;
 static void put(const vh::Json& j) { g_text += j.done(); g_text += '\n'; ++g_lines; }
+static void put_out(const vh::Json& j) { g_outs += j.done(); g_outs += '\n'; ++g_lines; }
 static void flush_text() { fputs(g_text.c_str(), g_out); fflush(g_out); g_text.clear(); }
 
 static int g_mark = 0;
@@ -158,7 +161,7 @@ static void end_recording() {
   for (size_t i = 0; i < all.size();) {
     const rec::Ev& e = all[i];
     size_t n = 1;
-    if (e.site == rec::LAZY_READ || e.site == rec::LAZY_USE || e.site == rec::SC_GET)
+    if (e.site == rec::LAZY_READ || e.site == rec::SC_GET)
       while (i + n < all.size() && all[i + n].tid == e.tid && all[i + n].site == e.site && all[i + n].a == e.a && all[i + n].b == e.b
              && all[i + n].c == e.c && all[i + n].d == e.d)
         ++n;
@@ -207,10 +210,10 @@ static void out_fx(const std::string& name, const std::vector<double>& v) {
     q.push_back(y);
     mx = std::max(mx, y < 0 ? -y : y);
   }
-  put(vh::Json("Out").str("name", name).str("kind", "fx").num("k", k).num("mx", mx).num("nonfinite", bad).arr("v", q));
+  put_out(vh::Json("Out").str("name", name).str("kind", "fx").num("k", k).num("mx", mx).num("nonfinite", bad).arr("v", q));
 }
 static void out_int(const std::string& name, const std::vector<long long>& v) {
-  put(vh::Json("Out").str("name", name).str("kind", "int").num("k", 0).num("mx", 0).num("nonfinite", 0).arr("v", v));
+  put_out(vh::Json("Out").str("name", name).str("kind", "int").num("k", 0).num("mx", 0).num("nonfinite", 0).arr("v", v));
 }
 static std::vector<double> img_vals(const DiscretisedDensity<3, float>& im) {
   std::vector<double> v;
@@ -253,7 +256,7 @@ static shared_ptr<Img> make_image(const Cfg& c, const ProjDataInfo& pdi, shared_
     return shared_ptr<Img>(new Img(ex, range, CartesianCoordinate3D<float>(0, 0, 0), CartesianCoordinate3D<float>(sc.get_ring_spacing() / 2, vxy, vxy)));
   return shared_ptr<Img>(new Img(range, CartesianCoordinate3D<float>(0, 0, 0), CartesianCoordinate3D<float>(sc.get_ring_spacing() / 2, vxy, vxy)));
 }
-static void fill_image(Img& im, vh::Rng& rng, int lo, int hi, float unit) {
+static void fill_image(Den& im, vh::Rng& rng, int lo, int hi, float unit) {
   for (auto it = im.begin_all(); it != im.end_all(); ++it) *it = rng.range(lo, hi) * unit;
 }
 static shared_ptr<ProjMatrixByBinUsingRayTracing> make_matrix(const Cfg& c) {
@@ -336,7 +339,8 @@ static void wl_lazy(const Cfg& c) {
       else gen->get_det_num_pair_for_view_tangential_pos_num(d1, d2, bin.view_num(), bin.tangential_pos_num());
       Bin b2;
       const int r1 = bin.axial_pos_num() % c.R, r2 = (bin.axial_pos_num() + 1) % c.R;
-      Succeeded ok = nac ? nac->get_bin_for_det_pair(b2, d1, r1, d2, r2) : gen->get_bin_for_det_pair(b2, d1, r1, d2, r2);
+      const DetectionPositionPair<> dpp(DetectionPosition<>(d1, r1, 0), DetectionPosition<>(d2, r2, 0));
+      Succeeded ok = nac ? nac->get_bin_for_det_pos_pair(b2, dpp) : gen->get_bin_for_det_pos_pair(b2, dpp);
       r[0] = ok == Succeeded::yes; r[1] = b2.segment_num(); r[2] = b2.axial_pos_num(); r[3] = b2.view_num(); r[4] = b2.tangential_pos_num();
       break;
     }
@@ -383,7 +387,12 @@ static void wl_rows(const Cfg& c) {
       ProjMatrixElemsForOneBin row;
       pm->get_proj_matrix_elems_for_one_bin(row, bins[req[i]]);
       double sum = 0, dot = 0;
-      for (auto it = row.begin(); it != row.end(); ++it) { sum += it->get_value(); dot += it->get_value() * (*image)[it->coord1()][it->coord2()][it->coord3()]; }
+      for (auto it = row.begin(); it != row.end(); ++it) {
+        sum += it->get_value();
+        // (rows may contain planes outside the image: those elements only enter the sum)
+        if (it->coord1() >= image->get_min_index() && it->coord1() <= image->get_max_index())
+          dot += it->get_value() * (*image)[it->coord1()][it->coord2()][it->coord3()];
+      }
       dig[(size_t)i * 3] = (double)row.size() / 64.; dig[(size_t)i * 3 + 1] = sum; dig[(size_t)i * 3 + 2] = dot;
     }
     mark("end");
@@ -443,7 +452,7 @@ static void wl_ll(const Cfg& c) {
   if (c.has_add) { add = make_projdata(c, ex, pdi, c.file_io); fill_projdata(*add, rng, 2, 9, 0.25F); }
   if (c.has_norm) { norm = make_projdata(c, ex, pdi, false); fill_projdata(*norm, rng, 2, 6, 0.25F); }
   shared_ptr<ProjMatrixByBin> pm = make_matrix(c);
-  PoissonLogLikelihoodWithLinearModelForMeanAndProjData<Img> obj;
+  PoissonLogLikelihoodWithLinearModelForMeanAndProjData<Den> obj;
   obj.set_proj_data_sptr(y);
   obj.set_projector_pair_sptr(shared_ptr<ProjectorByBinPair>(new ProjectorByBinPairUsingProjMatrixByBin(pm)));
   if (add) obj.set_additive_proj_data_sptr(add);
@@ -486,7 +495,7 @@ static void wl_ll(const Cfg& c) {
 }
 
 // (e) list-mode objective function: sensitivity and gradient
-class LmObj : public PoissonLogLikelihoodWithLinearModelForMeanAndListModeDataWithProjMatrixByBin<Img> {};
+class LmObj : public PoissonLogLikelihoodWithLinearModelForMeanAndListModeDataWithProjMatrixByBin<Den> {};
 static void wl_lm(const Cfg& c) {
   shared_ptr<ProjDataInfo> pdi = make_pdi(c);
   vh::Rng rng(c.data_seed);
@@ -544,7 +553,7 @@ static void wl_scat(const Cfg& c) {
   shared_ptr<ExamInfo> ex = make_exam();
   shared_ptr<Scanner> sc = vh::make_scanner(c.N, c.R);
   sc->set_reference_energy(511.F); sc->set_energy_resolution(0.2F);
-  shared_ptr<ProjDataInfo> pdi(ProjDataInfo::ProjDataInfoCTI(sc, 1, c.R - 1, c.N / 2, c.N - 1, false));
+  shared_ptr<ProjDataInfo> pdi(ProjDataInfo::ProjDataInfoCTI(sc, 1, c.R - 1, c.N / 2, c.numTang, false));
   vh::Rng rng(c.data_seed);
   auto grid = [&](int nz, int nxy, float vz, float vxy) {
     return shared_ptr<Img>(new Img(ex, IndexRange3D(0, nz - 1, -(nxy / 2), -(nxy / 2) + nxy - 1, -(nxy / 2), -(nxy / 2) + nxy - 1),
@@ -553,7 +562,9 @@ static void wl_scat(const Cfg& c) {
   shared_ptr<Img> act = grid(3, 7, 4.F, 4.F), att = grid(3, 7, 4.F, 4.F), sp = grid(2, 3, 8.F, 12.F);
   fill_image(*act, rng, 0, 15, 0.125F);
   fill_image(*att, rng, 0, 15, 1.F / 128);
-  fill_image(*sp, rng, 1, 15, 1.F / 128);
+  // scatter points: the voxels of this coarse image above the attenuation threshold (a handful)
+  sp->fill(0.F);
+  for (int i = 0; i < 5; ++i) (*sp)[rng.range(0, 1)][rng.range(-1, 1)][rng.range(-1, 1)] = rng.range(4, 15) / 128.F;
   SingleScatterSimulation sim;
   sim.set_randomly_place_scatter_points(false);
   sim.set_attenuation_threshold(0.01F);
@@ -610,7 +621,7 @@ static Cfg make_cfg(const std::string& wl, long inst, uint64_t seed, int size, c
   c.subsets = (nviews % 4 == 0 && rng.coin()) ? 2 : 1;
   if (wl == "lazy") { c.geom = rng.range(0, 2) == 0 ? "BlocksOnCylindrical" : "Cylindrical"; c.span = 1; c.maxDelta = c.R - 1; c.mash = 1; c.maxT = 0; c.tofMash = 0; c.numTang = c.N - 1;
     if (c.geom != "Cylindrical") c.N = rng.coin() ? 16 : 24; }
-  if (wl == "scat") { c.N = rng.coin() ? 16 : 24; c.R = rng.range(2, 3); c.use_cache = rng.range(0, 3) != 0; }
+  if (wl == "scat") { c.N = rng.coin() ? 16 : 24; c.R = 2; c.numTang = 7; c.use_cache = rng.range(0, 3) != 0; }
   if (wl == "lm") { c.mash = 1; c.span = 1; c.maxDelta = c.R - 1; c.file_io = false; c.subsets = ((c.N / 2) % 4 == 0 && rng.coin()) ? 2 : 1; }
   return c;
 }
@@ -621,7 +632,7 @@ static void one_run(const Cfg& c, long inst, int T, int rep, int mode, uint64_t 
   {
     vh::Json j("Run");
     j.str("wl", c.wl).num("inst", inst).num("T", T).num("rep", rep).num("mode", mode).boolean("ref", is_ref).num("objs", objs_of(c.wl)).num("mats", mats_of(c.wl));
-    g_text = j.done() + "\n"; ++g_lines;
+    g_text = j.done() + "\n"; ++g_lines; g_outs.clear();
     flush_text();                            // visible even if the run crashes
   }
   stir::set_num_threads(T);
@@ -629,6 +640,7 @@ static void one_run(const Cfg& c, long inst, int T, int rep, int mode, uint64_t 
   begin_recording(seed * 1315423911ULL + (uint64_t)inst * 2654435761ULL + (uint64_t)T * 97 + (uint64_t)rep, mode);
   const bool err = vh::threw([&] { run_workload(c); }, &msg);
   end_recording();
+  g_text += g_outs; g_outs.clear();
   vh::Json e("EndRun");
   e.boolean("err", err).num("maxthreads", omp_get_max_threads());
   if (err) e.str("msg", msg.substr(0, 200));
